@@ -11,7 +11,6 @@ package c04
 
 import (
 	"encoding/hex"
-	"encoding/json"
 	"fmt"
 	"os"
 	"path/filepath"
@@ -37,9 +36,10 @@ import (
 
 func TestMain(m *testing.M) {
 	// small live heap, large short-lived allocations (16 KiB globals slice per
-	// Script.Compile, deep goroutine stacks): the default GOGC would collect
-	// (and shrink stacks) every few cases
-	debug.SetGCPercent(800)
+	// Script.Compile, deep goroutine stacks): a somewhat larger GOGC halves the
+	// number of collections; much larger values cost more in page faults than
+	// they save (measured)
+	debug.SetGCPercent(ev.EnvInt("VERIF_C04_GOGC", 200))
 	// every entry point is called on a worker goroutine (recover + watchdog)
 	// while the test goroutine waits: with several Ps each hand-over is a
 	// futex wake-up on another thread (measured: 3x the CPU, a third of it
@@ -1011,7 +1011,17 @@ func FuzzCompile(f *testing.F) {
 	for i, s := range corpusSnippets() {
 		f.Add([]byte(s), []byte("export {f: func(x) { return x*2 }}"), uint16(i%8|((i%5)<<3)|(i%97)<<6))
 	}
-	for i, s := range hostileConstants() {
+	hostile := hostileConstants()
+	for _, sh := range nestShapes {
+		hostile = append(hostile, strings.Repeat(sh.open, 150)+sh.core+strings.Repeat(sh.close, 150))
+	}
+	for i, s := range hostile {
+		if len(s) > 2048 {
+			// inputs near the size bound cost ~0.1-0.5 s each under coverage
+			// instrumentation; TestHostileShapes covers them, the fuzzer gets
+			// the shallow variants above
+			continue
+		}
 		f.Add([]byte(s), []byte(s), uint16(i%8|((i%7)<<3)))
 		f.Add([]byte(`m := import("m1"); out := m`), []byte(s), uint16(2|(i%2)<<2))
 	}
@@ -1133,8 +1143,6 @@ func readFuzzFile(path string) (src, mod []byte, cfg uint16, err error) {
 	}
 	return bs[0], bs[1], cfg, nil
 }
-
-var _ = json.Marshal
 
 // ---------- plain tests ----------
 
